@@ -1,2 +1,96 @@
+"""C13 beyond the chain walker: tree histories, sums of lists of states, operator / density-operator methods, and the static modifies clauses."""
+import numpy as np
+
+from vk.rtc.harness import run_cases
+from vk.specs import chain as S
+from vk.specs import universe as U
+from vk.specs import dyn as Dn
+
+
+def tree_worker(case, led):
+    from vk.specs import treewalker
+    _, seed, n_nodes, flavour, length, tier = case
+    treewalker.walk(seed, n_nodes, flavour, length, led, tier)
+
+
+def sums_worker(case, led):
+    """compressed_sum / _sum over lists of 1..4 live states: every summand keeps its vector, the result is a new object"""
+    from renormalizer.mps.lib import compressed_sum
+    from renormalizer.mps import Mpo, MpDm
+    from renormalizer.utils import CompressConfig, CompressCriteria
+    _, name, n, seed, tier = case
+    rng = np.random.default_rng([seed, n, 4242, sum(map(ord, name))])
+    model, terms, sectors = Dn.hamiltonian(name, n, rng)
+    H = Mpo(model, terms)
+    Hd = S.dense(H).copy()
+    for q in list(sectors)[:3]:
+        for k in (1, 2, 3, 4):
+            for M in (1, 2, 8):
+                sts = [U.make_state(model, q, 3, rng, complex_=rng.random() < 0.3) for _ in range(k)]
+                if any(s is None for s in sts):
+                    continue
+                for s in sts:
+                    s.compress_config = CompressConfig(CompressCriteria.fixed, max_bonddim=M)
+                    if rng.random() < 0.5:
+                        s.coeff = 0.7
+                before = [S.dense(s).copy() for s in sts]
+                key = (name, n, seed, str(q), k, M)
+                rep = {"model": name, "nsites": n, "seed": seed, "sector": q, "n_summands": k, "M": M,
+                       "how": "states from vk.specs.universe.make_state(model, q, 3, rng) with this rng stream; compressed_sum(states)"}
+                f = {"n_summands": k}
+                try:
+                    r = compressed_sum(list(sts), batchsize=3)
+                except Exception as e:
+                    led.ok("skipped:compressed_sum:raised", "compressed_sum", key + (type(e).__name__,), nontrivial=False)
+                    r = None
+                for i, s in enumerate(sts):
+                    led.check(np.abs(S.dense(s) - before[i]).max() <= 1e-12 * max(1.0, np.abs(before[i]).max()), "frame:compressed_sum:summands_unchanged", "compressed_sum",
+                              f"summand {i} of {k} changed by {np.abs(S.dense(s) - before[i]).max():.2e} (M={M})", key + ("frame", i), f, rep)
+                if r is not None:
+                    led.check(all(r is not s for s in sts), "frame:compressed_sum:result_is_new_object", "compressed_sum", "the result is one of the summands", key + ("new",), f, rep)
+                    if np.abs(S.dense(r)).max() > 1e-8:
+                        r.scale(2.0, inplace=True)
+                        for i, s in enumerate(sts):
+                            led.check(np.abs(S.dense(s) - before[i]).max() <= 1e-12 * max(1.0, np.abs(before[i]).max()), "frame:compressed_sum:mutating_result_leaves_summands",
+                                      "compressed_sum", f"scaling the result in place changed summand {i}", key + ("mut", i), f, rep)
+        # density operators and operators as inputs
+        a = U.make_state(model, q, 2, rng)
+        if a is None:
+            continue
+        rho = MpDm.from_mps(a)
+        rd = S.dense(rho).copy()
+        ad = S.dense(a).copy()
+        key = (name, n, seed, str(q), "ops")
+        rep = {"model": name, "nsites": n, "seed": seed, "sector": q}
+        for opname, fn, call in (("H.apply(rho)", "Mpo.apply", lambda: H.apply(rho)), ("H @ rho", "Mpo.__matmul__", lambda: H @ rho), ("rho.conj_trans()", "MpDm.conj_trans", lambda: rho.conj_trans()),
+                                 ("H.conj_trans()", "Mpo.conj_trans", lambda: H.conj_trans()), ("H.contract(a)", "Mpo.contract", lambda: H.contract(a)),
+                                 ("rho.apply(H)", "MpDm.apply", lambda: rho.apply(H)), ("H.copy()+H", "MatrixProduct.add", lambda: H.copy().add(H)), ("H.scale(2)", "MatrixProduct.scale", lambda: H.scale(2.0)),
+                                 ("rho.todense", "MpDm.todense", lambda: rho.todense()), ("rho.copy", "MatrixProduct.copy", lambda: rho.copy()), ("rho.conj", "MatrixProduct.conj", lambda: rho.conj()),
+                                 ("rho.to_complex", "MatrixProduct.to_complex", lambda: rho.to_complex()), ("H.to_complex", "MatrixProduct.to_complex", lambda: H.to_complex()),
+                                 ("a.expectation(H)", "Mps.expectation", lambda: a.expectation(H)), ("rho.expectation(H)", "MpDm.expectation", lambda: rho.expectation(H)),
+                                 ("a.expectations", "Mps.expectations", lambda: a.expectations([H, H])), ("a.rdm", "Mps.calc_1site_rdm", lambda: (a.calc_1site_rdm(), a.calc_2site_rdm())),
+                                 ("a.entropy", "Mps.calc_bond_entropy", lambda: a.calc_bond_entropy()), ("a.dot(a)", "MatrixProduct.dot", lambda: a.dot(a.conj())), ("a.norm", "Mps.norm", lambda: a.norm)):
+            try:
+                r = call()
+            except Exception as e:
+                led.ok(f"skipped:{fn}:raised", fn, key + (opname, type(e).__name__), nontrivial=False)
+                r = None
+            ok = np.abs(S.dense(rho) - rd).max() <= 1e-12 and np.abs(S.dense(H) - Hd).max() <= 1e-12 * max(1, np.abs(Hd).max()) and np.abs(S.dense(a) - ad).max() <= 1e-12
+            led.check(ok, f"frame:{fn}:operands_unchanged", fn, f"{opname} changed one of its operands (H, rho or a)", key + (opname,), {"op": opname}, dict(rep, op=opname))
+            if r is not None and hasattr(r, "scale") and hasattr(r, "qnidx") and np.abs(S.dense(r)).max() > 1e-8:
+                r.scale(1.5, inplace=True)
+                r.ensure_left_canonical()
+                ok = np.abs(S.dense(rho) - rd).max() <= 1e-12 and np.abs(S.dense(H) - Hd).max() <= 1e-12 * max(1, np.abs(Hd).max()) and np.abs(S.dense(a) - ad).max() <= 1e-12
+                led.check(ok, f"frame:{fn}:mutating_result_leaves_operands", fn, f"in-place scale + canonicalise of the result of {opname} changed an operand", key + (opname, "mut"),
+                          {"op": opname}, dict(rep, op=opname))
+
+
 def check(run):
-    pass
+    from props import C13_effects
+    quick = run.tier == "quick"
+    cases = [("tree", run.seed * 100 + s, n, fl, 18 if quick else 45, run.tier) for fl in ("spinqn", "holstein") for n in ((3, 4) if quick else (2, 3, 4, 5))
+             for s in range(2 if quick else 8)]
+    run_cases(run, tree_worker, cases)
+    cases = [("sums", name, n, run.seed * 10 + s, run.tier) for name in ("spinqn", "holstein", "spin") for n in ((3, 4) if quick else (2, 3, 4, 5)) for s in range(1 if quick else 4)]
+    run_cases(run, sums_worker, cases)
+    C13_effects.prove(run)
